@@ -25,6 +25,8 @@ def run(ctx):
   rule_trunc(ctx)
   rule_feed(ctx)
   rule_bytes(ctx)
+  rule_pair(ctx)
+  ctx.expect("R-C09-PAIR", 1, "BiasedBaseCheck")
   # the identity is stated modulo self.n: it is the nonce relation only if n is the (prime) order of the generator on every curve (shared with C11)
   from . import c11
   ctx.borrow(c11.rule_curves, "R-C09-HNP")
@@ -177,3 +179,86 @@ def rule_bytes(ctx):
   b2i = lambda x: sym.mk("call", P("lit", "util:Bytes2Int"), x)
   ok = len(rets) == 1 and isinstance(rets[0], Seq) and [as_poly(x) for x in rets[0].items] == [b2i(sym.mk("attr", key, "x")), b2i(sym.mk("attr", key, "y"))]
   ctx.record(R, f.where, "(x, y) from key.x, key.y", ok, "coordinates decoded in order" if ok else "PublicPoint returns %r" % (rets,))
+
+
+# ------------------------------------------------------------------ PAIR (what the lattice is given is (a_i, b_i) of the i-th signature, for every i)
+def rule_pair(ctx):
+  """BiasedBaseCheck.Check: the i-th entries of the two lists handed to the hidden-number solver are HiddenNumberParams(r_i, s_i, z_i)[0] and [1] of the
+  same signature i.  Decided on the stores (same call value, same index, the element's own r, s, z) and on the solver calls (the two stored lists, passed
+  whole or cut by the same slice, never rebuilt in between - a filtered copy shifts one list against the other)."""
+  R = "R-C09-PAIR"
+  repo = ctx.repo
+  from . import template as T
+  bs = [b for b in T.bodies(repo) if b.cls.name == "BiasedBaseCheck"]
+  if not bs:
+    raise Incomplete("BiasedBaseCheck.Check not found", "ecdsa_sig_checks")
+  b = bs[0]
+
+  def root(n):
+    while isinstance(n, (ast.Subscript, ast.Attribute)):
+      n = n.value
+    return n.id if isinstance(n, ast.Name) else None
+
+  ta = tb = None
+  probs = []
+  n_st = 0
+  for e in b.events:
+    if e.kind != "store" or not isinstance(e.data["value"], Poly):
+      continue
+    va = e.data["value"].as_atom()
+    if va is None or va.kind != "idx" or not isinstance(va.args[0], Poly) or va.args[0].as_atom() is None:
+      continue
+    h = va.args[0].as_atom()
+    if not (h.kind == "mcall" and repr(h.args[1]) == "lit('HiddenNumberParams')"):
+      continue
+    n_st += 1
+    j = as_poly(va.args[1]).as_int()
+    k = as_poly(e.data["index"])
+    # the arguments are the three components of the k-th (r, s, z)
+    comps = [as_poly(x).as_atom() for x in h.args[2:5]]
+    good = len(comps) == 3 and all(c is not None and c.kind == "idx" and as_poly(c.args[1]).as_int() == i_ for i_, c in enumerate(comps))
+    if good:
+      elems = {repr(c.args[0]) for c in comps}
+      el = as_poly(comps[0].args[0]).as_atom()
+      good = len(elems) == 1 and el is not None and el.kind == "idx" and as_poly(el.args[1]) == k
+    if not good:
+      probs.append("HiddenNumberParams is not applied to the (r, s, z) of the element whose slot is written")
+    nm = root(e.data["target"])
+    if j == 0:
+      ta = nm if ta in (None, nm) else "?"
+    elif j == 1:
+      tb = nm if tb in (None, nm) else "?"
+  if n_st == 0 or ta in (None, "?") or tb in (None, "?") or ta == tb:
+    probs.append("no pair of lists filled with HiddenNumberParams(..)[0] and [1] at the same index")
+  calls = [e for e in b.events if e.kind == "call" and e.data["name"].startswith("repo:hidden_number_problem:HiddenNumberProblem")]
+  n_calls = 0
+  seen = set()
+  for e in calls:
+    node = e.node if isinstance(e.node, ast.Call) else next((x for x in ast.walk(e.node) if isinstance(x, ast.Call) and "HiddenNumberProblem" in ast.unparse(x.func)), None)
+    if node is None or id(node) in seen:
+      continue
+    seen.add(id(node))
+    n_calls += 1
+    if len(node.args) < 2 or root(node.args[0]) != ta or root(node.args[1]) != tb:
+      probs.append("`%s` is not given the two stored lists in the order (a, b)" % norm(node)[:70])
+      continue
+    s0 = ast.dump(node.args[0].slice) if isinstance(node.args[0], ast.Subscript) else None
+    s1 = ast.dump(node.args[1].slice) if isinstance(node.args[1], ast.Subscript) else None
+    if s0 != s1:
+      probs.append("`%s` cuts the two lists differently" % norm(node)[:70])
+  if not calls:
+    probs.append("the lists never reach the hidden-number solver")
+  # the lists are bound once (allocation) and only written element-wise afterwards
+  for nm in (ta, tb):
+    if nm in (None, "?"):
+      continue
+    binds = [st for st in ast.walk(b.func.node) if isinstance(st, (ast.Assign, ast.AugAssign, ast.AnnAssign)) and
+             any(isinstance(t, ast.Name) and t.id == nm for tg in (st.targets if isinstance(st, ast.Assign) else [st.target]) for t in ([tg] if not isinstance(tg, (ast.Tuple, ast.List)) else tg.elts))]
+    if len(binds) != 1:
+      probs.append("list `%s` is rebuilt after it was filled (%d bindings): entries of the two lists no longer line up" % (nm, len(binds)))
+    muts = [n_ for n_ in ast.walk(b.func.node) if isinstance(n_, ast.Call) and isinstance(n_.func, ast.Attribute) and isinstance(n_.func.value, ast.Name) and n_.func.value.id == nm and
+            n_.func.attr in ("pop", "remove", "insert", "sort", "reverse", "append", "extend", "clear")]
+    if muts:
+      probs.append("list `%s` is restructured by .%s()" % (nm, muts[0].func.attr))
+  ctx.record(R, b.where(), "(a_i, b_i) of the same signature reach the solver aligned", not probs, "; ".join(sorted(set(probs))) or
+             "%d stores, %d solver calls: both lists allocated once, written at the element's index, passed whole or equally sliced" % (n_st, n_calls))
